@@ -688,8 +688,8 @@ def eval_comp(line, payloads, res):
             elif peer != "ok":
                 viol.append("message %d (%d bytes): the peer cannot inflate what was returned: %s" % (k, n, peer))
         elif ret != -1:
-            viol.append("message %d (%d bytes): zlib's %d bytes do not fit the destination of %d (flush incomplete), but ret=%d: "
-                        "a cut-off stream is handed out" % (k, n, need, size, ret))
+            viol.append("message %d (%d bytes): zlib's %d bytes do not leave room in the destination of %d (avail_out == 0: the "
+                        "flush is cut off or not known to be complete), but ret=%d instead of -1" % (k, n, need, size, ret))
     return viol, mlines, answers, st
 
 
